@@ -30,8 +30,16 @@ cp SEEDED/patch.diff /verif/seeded/$NAME/
 for f in SEEDED/*; do case "$f" in *patch.diff|*meta.json) ;; *) cp -r "$f" /verif/seeded/$NAME/ ;; esac; done
 cp SEEDED/meta.json /verif/seeded/$NAME/meta.agent.json
 echo "RC_WITH=$RC_WITH RC_WITHOUT=$RC_WITHOUT" > /tmp/seed-$NAME-rc.txt
-# 4. checks against /repo + patch
+# 4. checks: by default against /repo + patch (as the brief describes); with ALT=1 a copy of
+# /verif is run against the worktree itself (tools/altcheck.sh), which leaves /repo alone so that
+# soaks on /repo and several confirmations can run at the same time
 cd /verif
+if [ -n "${ALT:-}" ]; then
+  for c in "$@"; do
+    ALT_REFRESH=1 /verif/tools/altcheck.sh $WT $c quick > /tmp/seed-$NAME-check-$c.log 2>&1; echo "== check $c rc=$? :: $(grep -E 'violation key|INCONCLUSIVE|inconclusive' /tmp/seed-$NAME-check-$c.log | head -2 | cut -c1-300)"; grep "^$c " /tmp/seed-$NAME-check-$c.log | cut -c1-160
+  done
+  exit 0
+fi
 git -C /repo diff --quiet || { echo "/repo not clean"; exit 8; }
 git -C /repo apply $WT/SEEDED/patch.diff || { echo "patch does not apply to /repo"; exit 7; }
 for c in "$@"; do
